@@ -1,12 +1,776 @@
-//! C20: harness module (stub — not built yet)
-#![allow(dead_code, unused_imports, unused_variables)]
+//! C20: dropping a simulation releases every module, task, message body and processing element
+//! exactly once, and a new simulation can be run in the same process afterwards.
+//!
+//! Every case is one real `des` network simulation built through the public API, run up to a
+//! stopping point, and then dropped together with everything `finish()` returned.  Every
+//! user-visible object carries a destructor counter (`Tracked`): the module struct, every
+//! processing element, the value captured by every spawned task, the body of every message and a
+//! `ChannelProbe` attached to one channel of every link.
+//!
+//! Script lines (objects are named by tags, so any line may be deleted):
+//!   case <id> stop=never0|never|itr:<n>|time:<ns>|full drop=ap|pa
+//!   mod <M> parent=<P|-> pe=<n> stages=<s>          module; path = <P's path>.<M>
+//!   chain <C> ch=none|q|qs|d ring=0|1 mods=<M,M,…>  gate `C` on every listed module, consecutive gates
+//!                                                   connected (ring=1: last to first as well); q = Queue(None),
+//!                                                   qs = Queue(250 B), d = Drop; 8 kbit/s, 1 ms latency, 100 B bodies
+//!   do <M> start <stage> <action…>                  action executed in at_sim_start(stage) of <M>
+//!   do <M> msg <id> <action…>                       … in handle_message of a message with header id <id>
+//!   do <M> end 0 <action…>                          … in at_sim_end
+//!     actions:  send <C> <id> <delay> <B|->         send / send_in over own gate <C>, body tag <B> (- = no body)
+//!               sched <id> <delay> <B|->            schedule_in
+//!               task <T> sleep <ns> <rt|loc> <none|try|must>      task capturing Tracked(T), sleeps, ends
+//!               task <T> recv <0|1> <rt|loc> <none|try|must>      task blocked on an mpsc receive that never comes
+//!                                                   (0: the sender lives in the module struct, 1: in the task itself)
+//!               task <T> ssend <ns> <C> <id> <B|->  task sleeps, then sends over <C>
+//!               keep                                (msg hook) store the received message in the module struct
+//!               shutdown | restart <ns>             current().shutdown() / shutdow_and_restart_in (once per module)
+//!               panic                               the handler panics (module error)
+//!   init <M> <id> <time> <B|->                      message injected with handle_message_on before the run
+//! Transcript: the same lines, then
+//!   stop now=<ns> fes=<n> down=<M,…|-> kept=<n> queued=<n>      state after the event loop, before finish()
+//!   q <C> <dir> <n,n,…>                                         queued packets per link of chain <C> (fwd / bwd)
+//!   fin res=ok|err|panic rem=<n> hm=<n> ex=<n> ub=<n> rs=<n> aw=<n>   finish(): remaining events by kind
+//!   obj <kind> <tag#k> c=<created> s=<dropped at stop> d=<dropped at the end>
+//!   sim2 <trace>                                                second simulation run in the same process afterwards
 use crate::rng::Rng;
 use crate::util::{cases, guarded, hval};
+use des::net::processing::{ProcessingElement, ProcessingStack};
+use des::prelude::*;
+use std::collections::HashMap;
+use std::fmt::Write;
+use std::sync::{Arc, Mutex};
+use tokio::sync::mpsc;
 
-pub fn gen(_seed: u64, _count: usize, _thorough: bool) -> String {
-    String::new()
+// ------------------------------------------------------------------------------------------ counters
+
+#[derive(Default)]
+struct Obj {
+    kind: &'static str,
+    tag: String,
+    created: u32,
+    dropped: u32,
+    at_stop: u32,
 }
 
-pub fn exec(_input: &str) -> String {
-    String::new()
+#[derive(Default)]
+struct Registry {
+    objs: Vec<Obj>,
+    inst: HashMap<String, u32>,
+    kept: u32,
+    log2: Vec<String>,
+}
+
+static REG: Mutex<Option<Registry>> = Mutex::new(None);
+
+fn reg<R>(f: impl FnOnce(&mut Registry) -> R) -> R {
+    let mut g = REG.lock().unwrap_or_else(|e| e.into_inner());
+    f(g.get_or_insert_with(Registry::default))
+}
+
+#[derive(Debug)]
+struct Tracked(usize);
+
+impl Tracked {
+    fn new(kind: &'static str, tag: &str) -> Tracked {
+        reg(|r| {
+            let k = r.inst.entry(format!("{kind}:{tag}")).or_insert(0);
+            let name = format!("{tag}#{k}");
+            *k += 1;
+            r.objs.push(Obj { kind, tag: name, created: 1, dropped: 0, at_stop: 0 });
+            Tracked(r.objs.len() - 1)
+        })
+    }
+}
+
+impl Drop for Tracked {
+    fn drop(&mut self) {
+        reg(|r| {
+            if let Some(o) = r.objs.get_mut(self.0) {
+                o.dropped += 1;
+            }
+        });
+    }
+}
+
+#[derive(Debug)]
+struct Body(#[allow(dead_code)] Tracked);
+impl MessageBody for Body {
+    fn byte_len(&self) -> usize {
+        100
+    }
+}
+
+fn mk_msg(id: u16, body: &str) -> Message {
+    let m = Message::default().id(id);
+    if body == "-" {
+        m
+    } else {
+        let mut m = m;
+        m.set_content_non_clonable(Body(Tracked::new("body", body)));
+        m
+    }
+}
+
+// ------------------------------------------------------------------------------------------ script
+
+#[derive(Clone, Debug)]
+enum Act {
+    Send { chain: String, id: u16, delay: u64, body: String },
+    Sched { id: u16, delay: u64, body: String },
+    TaskSleep { tag: String, ns: u64, local: bool, join: String },
+    TaskRecv { tag: String, own: bool, local: bool, join: String },
+    TaskSend { tag: String, ns: u64, chain: String, id: u16, body: String },
+    Keep,
+    Shutdown,
+    Restart(u64),
+    Panic,
+}
+
+#[derive(Clone, Debug, Default)]
+struct ModSpec {
+    tag: String,
+    path: String,
+    pe: usize,
+    stages: usize,
+    start: HashMap<u64, Vec<Act>>,
+    msg: HashMap<u64, Vec<Act>>,
+    end: Vec<Act>,
+}
+
+#[derive(Clone, Debug)]
+struct ChainSpec {
+    tag: String,
+    ch: String,
+    ring: bool,
+    mods: Vec<String>,
+}
+
+#[derive(Default)]
+struct Script {
+    mods: Vec<ModSpec>,
+    chains: Vec<ChainSpec>,
+    inits: Vec<(String, u16, u64, String)>,
+}
+
+fn parse_act(t: &[&str], chains: &[ChainSpec], own: &str) -> Option<Act> {
+    let has_chain = |c: &str| chains.iter().any(|x| x.tag == c && x.mods.iter().any(|m| m == own));
+    match t {
+        ["send", c, id, delay, body] => {
+            if !has_chain(c) {
+                return None;
+            }
+            Some(Act::Send { chain: c.to_string(), id: id.parse().ok()?, delay: delay.parse().ok()?, body: body.to_string() })
+        }
+        ["sched", id, delay, body] => Some(Act::Sched { id: id.parse().ok()?, delay: delay.parse().ok()?, body: body.to_string() }),
+        ["task", tag, "sleep", ns, loc, join] => Some(Act::TaskSleep { tag: tag.to_string(), ns: ns.parse().ok()?, local: *loc == "loc", join: join.to_string() }),
+        ["task", tag, "recv", own, loc, join] => Some(Act::TaskRecv { tag: tag.to_string(), own: *own == "1", local: *loc == "loc", join: join.to_string() }),
+        ["task", tag, "ssend", ns, c, id, body] => {
+            if !has_chain(c) {
+                return None;
+            }
+            Some(Act::TaskSend { tag: tag.to_string(), ns: ns.parse().ok()?, chain: c.to_string(), id: id.parse().ok()?, body: body.to_string() })
+        }
+        ["keep"] => Some(Act::Keep),
+        ["shutdown"] => Some(Act::Shutdown),
+        ["restart", ns] => Some(Act::Restart(ns.parse().ok()?)),
+        ["panic"] => Some(Act::Panic),
+        _ => None,
+    }
+}
+
+fn parse(body: &[String]) -> Script {
+    let mut sc = Script::default();
+    for line in body {
+        let t: Vec<&str> = line.split_whitespace().collect();
+        if let ["mod", m, rest @ ..] = t.as_slice() {
+            if sc.mods.iter().any(|x| x.tag == *m) || m.contains('.') {
+                continue;
+            }
+            let l = rest.join(" ");
+            let parent = hval(&l, "parent").unwrap_or_else(|| "-".into());
+            let path = match sc.mods.iter().find(|x| x.tag == parent) {
+                Some(p) => format!("{}.{}", p.path, m),
+                None => m.to_string(),
+            };
+            sc.mods.push(ModSpec {
+                tag: m.to_string(),
+                path,
+                pe: hval(&l, "pe").and_then(|v| v.parse().ok()).unwrap_or(0),
+                stages: hval(&l, "stages").and_then(|v| v.parse().ok()).unwrap_or(1),
+                ..Default::default()
+            });
+        }
+    }
+    for line in body {
+        let t: Vec<&str> = line.split_whitespace().collect();
+        if let ["chain", c, rest @ ..] = t.as_slice() {
+            if sc.chains.iter().any(|x| x.tag == *c) {
+                continue;
+            }
+            let l = rest.join(" ");
+            let mut mods: Vec<String> = Vec::new();
+            for m in hval(&l, "mods").unwrap_or_default().split(',') {
+                if sc.mods.iter().any(|x| x.tag == m) && !mods.iter().any(|x| x == m) {
+                    mods.push(m.to_string());
+                }
+            }
+            if mods.len() < 2 {
+                continue;
+            }
+            let ring = hval(&l, "ring").map(|v| v == "1").unwrap_or(false) && mods.len() >= 3;
+            sc.chains.push(ChainSpec { tag: c.to_string(), ch: hval(&l, "ch").unwrap_or_else(|| "none".into()), ring, mods });
+        }
+    }
+    let chains = sc.chains.clone();
+    for line in body {
+        let t: Vec<&str> = line.split_whitespace().collect();
+        match t.as_slice() {
+            ["do", m, hook, key, act @ ..] => {
+                let Ok(key) = key.parse::<u64>() else { continue };
+                let Some(ms) = sc.mods.iter_mut().find(|x| x.tag == *m) else { continue };
+                let Some(a) = parse_act(act, &chains, m) else { continue };
+                match *hook {
+                    "start" => ms.start.entry(key).or_default().push(a),
+                    "msg" => ms.msg.entry(key).or_default().push(a),
+                    "end" => ms.end.push(a),
+                    _ => {}
+                }
+            }
+            ["init", m, id, time, b] => {
+                let (Ok(id), Ok(time)) = (id.parse::<u16>(), time.parse::<u64>()) else { continue };
+                if sc.mods.iter().any(|x| x.tag == *m) {
+                    sc.inits.push((m.to_string(), id, time, b.to_string()));
+                }
+            }
+            _ => {}
+        }
+    }
+    sc
+}
+
+// ------------------------------------------------------------------------------------------ real code
+
+struct Probe {
+    #[allow(dead_code)]
+    t: Tracked,
+}
+impl des::net::channel::ChannelProbe for Probe {
+    fn on_message_transmit(&mut self, _: &ChannelMetrics, _: &Message) {}
+}
+
+/// connect two gates; the channel that ends up in `b`'s connection gets a tracked probe
+fn connect(a: GateRef, b: GateRef, ch: Option<ChannelRef>, tag: &str) {
+    let keep = ch.clone();
+    a.connect(b, ch);
+    if let Some(c) = keep {
+        c.attach_probe(Probe { t: Tracked::new("probe", tag) });
+    }
+}
+
+struct Pe {
+    #[allow(dead_code)]
+    t: Tracked,
+}
+impl ProcessingElement for Pe {}
+
+struct Node {
+    spec: Arc<ModSpec>,
+    #[allow(dead_code)]
+    me: Tracked,
+    kept: Vec<Message>,
+    txs: Vec<mpsc::UnboundedSender<()>>,
+    downed: bool,
+}
+
+fn register(handle: tokio::task::JoinHandle<()>, join: &str) {
+    match join {
+        "try" => current().try_join(handle),
+        "must" => current().join(handle),
+        _ => drop(handle),
+    }
+}
+
+fn do_send(chain: &str, id: u16, delay: u64, body: &str) {
+    let msg = mk_msg(id, body);
+    if delay == 0 {
+        send(msg, chain);
+    } else {
+        send_in(msg, chain, Duration::from_nanos(delay));
+    }
+}
+
+impl Node {
+    fn run(&mut self, acts: Option<&Vec<Act>>, mut incoming: Option<Message>) {
+        for a in acts.into_iter().flatten() {
+            match a {
+                Act::Send { chain, id, delay, body } => do_send(chain, *id, *delay, body),
+                Act::Sched { id, delay, body } => schedule_in(mk_msg(*id, body), Duration::from_nanos(*delay)),
+                Act::TaskSleep { tag, ns, local, join } => {
+                    let t = Tracked::new("task", tag);
+                    let ns = *ns;
+                    let fut = async move {
+                        let _t = t;
+                        des::time::sleep(Duration::from_nanos(ns)).await;
+                    };
+                    let h = if *local { tokio::task::spawn_local(fut) } else { tokio::spawn(fut) };
+                    register(h, join);
+                }
+                Act::TaskRecv { tag, own, local, join } => {
+                    let t = Tracked::new("task", tag);
+                    let (tx, mut rx) = mpsc::unbounded_channel::<()>();
+                    let mut held = None;
+                    if *own {
+                        held = Some(tx);
+                    } else {
+                        self.txs.push(tx);
+                    }
+                    let fut = async move {
+                        let _t = t;
+                        let _held = held;
+                        let _ = rx.recv().await;
+                    };
+                    let h = if *local { tokio::task::spawn_local(fut) } else { tokio::spawn(fut) };
+                    register(h, join);
+                }
+                Act::TaskSend { tag, ns, chain, id, body } => {
+                    let t = Tracked::new("task", tag);
+                    let (ns, chain, id, body) = (*ns, chain.clone(), *id, body.clone());
+                    tokio::spawn(async move {
+                        let _t = t;
+                        des::time::sleep(Duration::from_nanos(ns)).await;
+                        do_send(&chain, id, 0, &body);
+                    });
+                }
+                Act::Keep => {
+                    if let Some(m) = incoming.take() {
+                        self.kept.push(m);
+                        reg(|r| r.kept += 1);
+                    }
+                }
+                Act::Shutdown => {
+                    if !self.downed {
+                        self.downed = true;
+                        current().shutdown();
+                    }
+                }
+                Act::Restart(ns) => {
+                    if !self.downed {
+                        self.downed = true;
+                        current().shutdow_and_restart_in(Duration::from_nanos(*ns));
+                    }
+                }
+                Act::Panic => panic!("scripted panic"),
+            }
+        }
+    }
+}
+
+impl Module for Node {
+    fn stack(&self, mut stack: ProcessingStack) -> ProcessingStack {
+        for i in 0..self.spec.pe {
+            stack.append(Pe { t: Tracked::new("pe", &format!("{}.{}", self.spec.tag, i)) });
+        }
+        stack
+    }
+    fn num_sim_start_stages(&self) -> usize {
+        self.spec.stages
+    }
+    fn at_sim_start(&mut self, stage: usize) {
+        let spec = self.spec.clone();
+        self.run(spec.start.get(&(stage as u64)), None);
+    }
+    fn handle_message(&mut self, msg: Message) {
+        let spec = self.spec.clone();
+        let id = msg.header().id as u64;
+        self.run(spec.msg.get(&id), Some(msg));
+    }
+    fn at_sim_end(&mut self) -> Result<(), RuntimeError> {
+        let spec = self.spec.clone();
+        self.run(Some(&spec.end), None);
+        Ok(())
+    }
+}
+
+fn channel_of(ch: &str) -> Option<ChannelRef> {
+    let drop = match ch {
+        "q" => ChannelDropBehaviour::Queue(None),
+        "qs" => ChannelDropBehaviour::Queue(Some(250)),
+        "d" => ChannelDropBehaviour::Drop,
+        _ => return None,
+    };
+    Some(Channel::new(ChannelMetrics::new(8000, Duration::from_millis(1), Duration::ZERO, drop)))
+}
+
+fn packets(ch: &ChannelRef) -> u64 {
+    let s = format!("{ch:?}");
+    match s.find("packets: ") {
+        Some(i) => s[i + 9..].chars().take_while(|c| c.is_ascii_digit()).collect::<String>().parse().unwrap_or(0),
+        None => 0,
+    }
+}
+
+fn snapshot_stop() {
+    reg(|r| {
+        for o in r.objs.iter_mut() {
+            o.at_stop = o.dropped;
+        }
+    });
+}
+
+fn simulate(sc: &Script, stop: &str, drop_order: &str, out: &mut Vec<String>) {
+    let mut sim = Sim::new(());
+    let mut made: Vec<String> = Vec::new();
+    for m in &sc.mods {
+        let spec = Arc::new(m.clone());
+        let path = m.path.clone();
+        let node = Node { spec, me: Tracked::new("mod", &m.tag), kept: Vec::new(), txs: Vec::new(), downed: false };
+        if guarded(|| sim.node(path.as_str(), node)).is_ok() {
+            made.push(m.tag.clone());
+        }
+    }
+    let path_of = |tag: &str| sc.mods.iter().find(|m| m.tag == tag).map(|m| m.path.clone()).unwrap_or_default();
+    for c in &sc.chains {
+        let ms: Vec<&String> = c.mods.iter().filter(|m| made.contains(m)).collect();
+        let n = ms.len();
+        if n < 2 {
+            continue;
+        }
+        for i in 0..n - 1 {
+            let a = sim.gate(path_of(ms[i]).as_str(), &c.tag);
+            let b = sim.gate(path_of(ms[i + 1]).as_str(), &c.tag);
+            connect(a, b, channel_of(&c.ch), &format!("{}.{}", c.tag, i));
+        }
+        if c.ring && n >= 3 {
+            let a = sim.gate(path_of(ms[n - 1]).as_str(), &c.tag);
+            let b = sim.gate(path_of(ms[0]).as_str(), &c.tag);
+            connect(a, b, channel_of(&c.ch), &format!("{}.r", c.tag));
+        }
+    }
+    if stop == "never0" {
+        snapshot_stop();
+        out.push("stop now=0 fes=0 down=- kept=0 queued=0".into());
+        out.push("fin res=never rem=0 hm=0 ex=0 ub=0 rs=0 aw=0".into());
+        drop(sim);
+        return;
+    }
+    let mut builder = Builder::seeded(1).quiet();
+    if let Some(n) = stop.strip_prefix("itr:").and_then(|v| v.parse::<usize>().ok()) {
+        builder = builder.max_itr(n);
+    } else if let Some(t) = stop.strip_prefix("time:").and_then(|v| v.parse::<u64>().ok()) {
+        builder = builder.max_time(SimTime::from_duration(Duration::from_nanos(t)));
+    } else {
+        builder = builder.max_itr(20000);
+    }
+    let mut rt = builder.build(sim.freeze());
+    for (m, id, time, b) in &sc.inits {
+        let Some(module) = rt.app.globals().get(&ObjectPath::from(path_of(m).as_str())) else { continue };
+        rt.handle_message_on(module, mk_msg(*id, b), SimTime::from_duration(Duration::from_nanos(*time)));
+    }
+    if stop == "never" {
+        snapshot_stop();
+        out.push(format!("stop now=0 fes={} down=- kept=0 queued=0", rt.num_events_remaining()));
+        out.push("fin res=never rem=0 hm=0 ex=0 ub=0 rs=0 aw=0".into());
+        drop(rt);
+        return;
+    }
+    rt.start();
+    rt.dispatch_all();
+    // ---- state at the stopping point
+    snapshot_stop();
+    let globals = rt.app.globals();
+    let mut down: Vec<String> = Vec::new();
+    for m in &sc.mods {
+        if let Some(r) = globals.get(&ObjectPath::from(m.path.as_str())) {
+            if !r.is_active() {
+                down.push(m.tag.clone());
+            }
+        }
+    }
+    let mut qlines = Vec::new();
+    let mut queued = 0;
+    for c in &sc.chains {
+        if c.ring {
+            continue;
+        }
+        let ms: Vec<&String> = c.mods.iter().filter(|m| made.contains(m)).collect();
+        if ms.len() < 2 {
+            continue;
+        }
+        for (dir, end) in [("fwd", ms[0]), ("bwd", ms[ms.len() - 1])] {
+            let Some(r) = globals.get(&ObjectPath::from(path_of(end).as_str())) else { continue };
+            let Some(g) = r.gate(&c.tag, 0) else { continue };
+            let Some(it) = g.path_iter() else { continue };
+            let ns: Vec<u64> = it.take(16).map(|con| con.channel().map(|ch| packets(&ch)).unwrap_or(0)).collect();
+            queued += ns.iter().sum::<u64>();
+            qlines.push(format!("q {} {} {}", c.tag, dir, ns.iter().map(|n| n.to_string()).collect::<Vec<_>>().join(",")));
+        }
+    }
+    drop(globals);
+    let kept = reg(|r| r.kept);
+    out.push(format!(
+        "stop now={} fes={} down={} kept={} queued={}",
+        SimTime::now().as_nanos(),
+        rt.num_events_remaining(),
+        if down.is_empty() { "-".to_string() } else { down.join(",") },
+        kept,
+        queued
+    ));
+    out.extend(qlines);
+    // ---- finish and drop everything
+    match rt.finish() {
+        Ok((app, _time, prof)) => {
+            let mut k = [0usize; 5];
+            for (e, _) in &prof.remaining {
+                let s = format!("{e:?}");
+                let i = if s.starts_with("HandleMessageEvent") {
+                    0
+                } else if s.starts_with("MessageExitingConnection") {
+                    1
+                } else if s.starts_with("ChannelUnbusyNotif") {
+                    2
+                } else if s.starts_with("ModuleRestartEvent") {
+                    3
+                } else {
+                    4
+                };
+                k[i] += 1;
+            }
+            out.push(format!("fin res=ok rem={} hm={} ex={} ub={} rs={} aw={}", prof.remaining.len(), k[0], k[1], k[2], k[3], k[4]));
+            if drop_order == "pa" {
+                drop(prof);
+                drop(app);
+            } else {
+                drop(app);
+                drop(prof);
+            }
+        }
+        Err(e) => {
+            out.push("fin res=err rem=0 hm=0 ex=0 ub=0 rs=0 aw=0".into());
+            drop(e);
+        }
+    }
+}
+
+// ---- the second simulation: x sends 1,2,3 to y (send_in 1,2,3 ns over a 1 ns-latency channel), y spawns a 5 ns sleeper on message 1
+struct X2;
+impl Module for X2 {
+    fn at_sim_start(&mut self, _: usize) {
+        for i in 1..=3u16 {
+            send_in(Message::default().id(i), "o", Duration::from_nanos(i as u64));
+        }
+    }
+}
+struct Y2;
+impl Module for Y2 {
+    fn handle_message(&mut self, msg: Message) {
+        let id = msg.header().id;
+        reg(|r| r.log2.push(format!("y:{}@{}", id, SimTime::now().as_nanos())));
+        if id == 1 {
+            tokio::spawn(async move {
+                des::time::sleep(Duration::from_nanos(5)).await;
+                reg(|r| r.log2.push(format!("t@{}", SimTime::now().as_nanos())));
+            });
+        }
+    }
+}
+
+fn second_sim() -> String {
+    reg(|r| r.log2.clear());
+    let res = guarded(|| {
+        let mut sim = Sim::new(());
+        sim.node("x", X2);
+        sim.node("y", Y2);
+        let o = sim.gate("x", "o");
+        let i = sim.gate("y", "i");
+        o.connect(i, Some(Channel::new(ChannelMetrics::new(0, Duration::from_nanos(1), Duration::ZERO, ChannelDropBehaviour::Drop))));
+        match Builder::seeded(1).quiet().build(sim.freeze()).run() {
+            Ok((_, t, p)) => format!("ok:{}:{}", t.as_nanos(), p.remaining.len()),
+            Err(_) => "err".to_string(),
+        }
+    });
+    let mut parts = reg(|r| r.log2.clone());
+    parts.push(match res {
+        Ok(s) => s,
+        Err(_) => "panic".into(),
+    });
+    parts.join(",")
+}
+
+pub fn exec(input: &str) -> String {
+    let mut out = String::new();
+    for (header, body) in cases(input) {
+        writeln!(out, "{header}").unwrap();
+        let body: Vec<String> = body
+            .into_iter()
+            .filter(|l| !["stop ", "q ", "fin ", "obj ", "sim2 "].iter().any(|p| l.starts_with(p)))
+            .collect();
+        for l in &body {
+            writeln!(out, "{l}").unwrap();
+        }
+        let sc = parse(&body);
+        let stop = hval(&header, "stop").unwrap_or_else(|| "full".into());
+        let order = hval(&header, "drop").unwrap_or_else(|| "ap".into());
+        *REG.lock().unwrap_or_else(|e| e.into_inner()) = Some(Registry::default());
+        let mut lines = Vec::new();
+        let res = guarded(|| simulate(&sc, &stop, &order, &mut lines));
+        if res.is_err() {
+            if !lines.iter().any(|l| l.starts_with("stop ")) {
+                lines.push("stop now=0 fes=0 down=- kept=0 queued=0".into());
+            }
+            lines.push("fin res=panic rem=0 hm=0 ex=0 ub=0 rs=0 aw=0".into());
+        }
+        for l in &lines {
+            writeln!(out, "{l}").unwrap();
+        }
+        let objs: Vec<String> = reg(|r| r.objs.iter().map(|o| format!("obj {} {} c={} s={} d={}", o.kind, o.tag, o.created, o.at_stop, o.dropped)).collect());
+        for l in objs {
+            writeln!(out, "{l}").unwrap();
+        }
+        writeln!(out, "sim2 {}", second_sim()).unwrap();
+        writeln!(out, "end").unwrap();
+    }
+    out
+}
+
+// ------------------------------------------------------------------------------------------ generator
+
+pub fn gen(seed: u64, count: usize, thorough: bool) -> String {
+    let mut r = Rng::new(seed);
+    let mut out = String::new();
+    for k in 0..count {
+        let nmods = r.range(1, 6) as usize;
+        // stopping point
+        let stop = match r.below(10) {
+            0 => "never0".to_string(),
+            1 => "never".to_string(),
+            2..=4 => format!("itr:{}", r.range(0, if thorough { 30 } else { 14 })),
+            5..=6 => format!("time:{}", *r.pick(&[0u64, 1, 50, 1_000_000, 100_000_000, 150_000_000, 250_000_000, 1_000_000_000])),
+            _ => "full".to_string(),
+        };
+        let order = if r.chance(1, 2) { "ap" } else { "pa" };
+        writeln!(out, "case {k} stop={stop} drop={order}").unwrap();
+        let mods: Vec<String> = (0..nmods).map(|i| format!("m{i}")).collect();
+        for (i, m) in mods.iter().enumerate() {
+            let parent = if i > 0 && r.chance(1, 2) { mods[r.below(i as u64) as usize].clone() } else { "-".to_string() };
+            writeln!(out, "mod {m} parent={parent} pe={} stages={}", *r.pick(&[0u64, 0, 1, 2, 3]), *r.pick(&[1u64, 1, 1, 2, 0])).unwrap();
+        }
+        // chains and rings
+        let mut chains: Vec<(String, Vec<String>, bool)> = Vec::new();
+        if nmods >= 2 {
+            let nch = r.range(1, 3);
+            for c in 0..nch {
+                let len = r.range(2, nmods.min(4) as u64) as usize;
+                let mut pool = mods.clone();
+                let mut ms = Vec::new();
+                for _ in 0..len {
+                    let i = r.below(pool.len() as u64) as usize;
+                    ms.push(pool.remove(i));
+                }
+                let ring = len >= 3 && r.chance(1, 3);
+                let ch = *r.pick(&["none", "q", "q", "q", "qs", "d"]);
+                writeln!(out, "chain c{c} ch={ch} ring={} mods={}", ring as u8, ms.join(",")).unwrap();
+                chains.push((format!("c{c}"), ms, ring));
+            }
+        }
+        let nid = 6u64;
+        let mut tcount = 0;
+        let mut bcount = 0;
+        let nact = if thorough { r.range(3, 18) } else { r.range(2, 12) };
+        let mut last: Option<(String, &str, u64)> = None;
+        for _ in 0..nact {
+            let (m, hook, key) = match (&last, r.chance(2, 5)) {
+                (Some(l), true) => l.clone(),
+                _ => {
+                    let m = r.pick(&mods).clone();
+                    let hook = *r.pick(&["start", "start", "msg", "msg", "msg", "end"]);
+                    let key = match hook {
+                        "start" => r.below(2),
+                        "msg" => r.range(1, nid),
+                        _ => 0,
+                    };
+                    (m, hook, key)
+                }
+            };
+            // ids emitted from a message hook are strictly larger than the triggering id (termination)
+            let lo = if hook == "msg" { key + 1 } else { 1 };
+            if lo > nid + 2 {
+                continue;
+            }
+            let id = r.range(lo, nid + 2);
+            let my_chains: Vec<&(String, Vec<String>, bool)> = chains.iter().filter(|c| c.1.contains(&m)).collect();
+            let body = |r: &mut Rng, bcount: &mut u32| {
+                if r.chance(1, 6) {
+                    "-".to_string()
+                } else {
+                    *bcount += 1;
+                    format!("b{}", *bcount)
+                }
+            };
+            let delay = *r.pick(&[0u64, 0, 0, 1, 1000, 50_000_000, 2_000_000_000]);
+            let act = match r.below(14) {
+                0..=4 if !my_chains.is_empty() => {
+                    // prefer an endpoint position (sending from a transit gate panics), but do not insist
+                    let c = r.pick(&my_chains);
+                    let b = body(&mut r, &mut bcount);
+                    format!("send {} {id} {delay} {b}", c.0)
+                }
+                0..=5 => {
+                    let b = body(&mut r, &mut bcount);
+                    format!("sched {id} {delay} {b}")
+                }
+                6..=7 if hook != "end" => {
+                    tcount += 1;
+                    let ns = *r.pick(&[1u64, 1000, 100_000_000, 1_000_000_000_000]);
+                    format!("task t{tcount} sleep {ns} {} {}", r.pick(&["rt", "rt", "loc"]), r.pick(&["none", "none", "try", "must"]))
+                }
+                8 if hook != "end" => {
+                    tcount += 1;
+                    format!("task t{tcount} recv {} {} {}", r.below(2), r.pick(&["rt", "rt", "loc"]), r.pick(&["none", "none", "try"]))
+                }
+                9 if hook != "end" && !my_chains.is_empty() => {
+                    tcount += 1;
+                    let c = r.pick(&my_chains);
+                    let b = body(&mut r, &mut bcount);
+                    let ns = *r.pick(&[1u64, 1000, 100_000_000]);
+                    format!("task t{tcount} ssend {ns} {} {id} {b}", c.0)
+                }
+                10 if hook == "msg" => "keep".to_string(),
+                11 if hook != "end" => {
+                    if r.chance(1, 2) {
+                        "shutdown".to_string()
+                    } else {
+                        format!("restart {}", *r.pick(&[0u64, 1, 1000, 500_000_000]))
+                    }
+                }
+                12 if r.chance(1, 4) => "panic".to_string(),
+                _ => {
+                    let b = body(&mut r, &mut bcount);
+                    format!("sched {id} {delay} {b}")
+                }
+            };
+            writeln!(out, "do {m} {hook} {key} {act}").unwrap();
+            last = Some((m, hook, key));
+        }
+        // bursts onto a queueing channel: the classic backlog
+        if !chains.is_empty() && r.chance(1, 2) {
+            let c = r.pick(&chains).clone();
+            if !c.2 {
+                let m = if r.chance(1, 2) { c.1[0].clone() } else { c.1[c.1.len() - 1].clone() };
+                let n = r.range(2, 5);
+                for _ in 0..n {
+                    bcount += 1;
+                    writeln!(out, "do {m} start 0 send {} {} 0 b{bcount}", c.0, r.range(1, nid)).unwrap();
+                }
+            }
+        }
+        let ninit = r.below(4);
+        for _ in 0..ninit {
+            let m = r.pick(&mods);
+            bcount += 1;
+            let b = if r.chance(1, 5) { "-".to_string() } else { format!("b{bcount}") };
+            writeln!(out, "init {m} {} {} {b}", r.range(1, nid), *r.pick(&[0u64, 0, 1, 5, 1000, 100_000_000, 3_000_000_000])).unwrap();
+        }
+        writeln!(out, "end").unwrap();
+    }
+    out
 }
